@@ -482,6 +482,12 @@ class ExprMixin(object):
   def contains(self, st, container, item):
     """item in container -> [(state, VBool|Raised)]"""
     out = []
+    from pyvc.values import VSnap
+    if isinstance(container, VSnap):
+      if container.how == 'dict':
+        return [(st, VBool(z3.Select(container.a, self.to_val(st, item))))]
+      i = fresh('in_i', z3.IntSort())
+      return [(st, VBool(z3.Exists([i], z3.And(0 <= i, i < container.a, z3.Select(container.b, i) == self.to_val(st, item)))))]
     for s, c in self.resolve(st, container):
       if isinstance(c, VRef) and c.cls in ('dict', 'set'):
         out.append((s, VBool(self.dict_has(s, c, item))))
@@ -589,6 +595,15 @@ class ExprMixin(object):
     self.cur_node = e
     if self.spec_mode and isinstance(e.func, ast.Name) and e.func.id == 'old' and 'old' not in st.env:
       return self.eval_old(st, e.args[0])
+    if self.spec_mode and isinstance(e.func, ast.Name) and e.func.id == 'implies' and 'implies' not in st.env:
+      # special form: the consequent is evaluated under the antecedent (guards partial operations)
+      s = st.fork()
+      a = self.eval_merged_bool(s, e.args[0])
+      s.assume(a)
+      b = self.eval_merged_bool(s, e.args[1])
+      for c, _ in [(c, None) for c in s.pc if c.get_id() in s.ax and c.get_id() not in st.ax]:
+        st.axiom(c)
+      return [(st, VBool(z3.Implies(a, b)))]
     # evaluate callee, positional args, keyword args in order
     def after_fn(s, fn):
       kw_names = [k.arg for k in e.keywords]
